@@ -12,6 +12,7 @@ that computes what Go's control flow computes.
 import GooseVerif.Lemmas.Tr
 import GooseVerif.Props.C01Core
 import GooseVerif.Props.C01Heap
+import GooseVerif.Props.C02Tuple
 import GooseVerif.Gen.Guards
 import GooseVerif.Expected.Guards
 
